@@ -4,7 +4,9 @@ CONSTANTS
   Shapes = {"scatter", "gather"}
   MaxFaults = 2
   Batches = 1
-  Mutants = {"none"}
+  Mutants = {"none", "short_stream", "filter_ok", "retry_local", "http_empty", "ignore_decode", "skip_digest"}
+  MutMaxN = 2
+  MutShapes = {"scatter"}
 INIT Init
 NEXT Next
 INVARIANT TypeOK
@@ -15,4 +17,6 @@ INVARIANT FaultFreeAnswers
 INVARIANT NothingBeforeAll
 INVARIANT BlameIsGuilty
 INVARIANT Emit
+INVARIANT ContractDev
+INVARIANT Kill
 CHECK_DEADLOCK TRUE
